@@ -15,8 +15,8 @@ func init() {
 
 var ab = []string{"a", "b"}
 
-var errKindCycle = []int{scen.ESentinel, scen.EWrapped, scen.ECustom, scen.EUncomparable, scen.ENestedRun, scen.EJoined, scen.ETypedNil, scen.ETemporary, scen.EWrapped, scen.ECtxLike, scen.ENilSliceErr}
-var errKindName = map[int]string{scen.ESentinel: "sentinel", scen.EWrapped: "wrapped", scen.ECustom: "custom", scen.EUncomparable: "uncomparable-struct", scen.EJoined: "joined", scen.ETemporary: "temporary", scen.ECtxLike: "wraps-a-context-error", scen.ENestedRun: "wraps-a-sub-run-error", scen.ETypedNil: "typed-nil-pointer", scen.ENilSliceErr: "nil-slice-error"}
+var errKindCycle = []int{scen.ESentinel, scen.EWrapped, scen.ECustom, scen.EUncomparable, scen.ENestedRun, scen.EJoined, scen.ETypedNil, scen.ETemporary, scen.EWrapped, scen.ECtxLike, scen.ENilSliceErr, scen.EIOEOF, scen.ENotTemporary, scen.ESameValue}
+var errKindName = map[int]string{scen.ESentinel: "sentinel", scen.EWrapped: "wrapped", scen.ECustom: "custom", scen.EUncomparable: "uncomparable-struct", scen.EJoined: "joined", scen.ETemporary: "temporary", scen.ECtxLike: "wraps-a-context-error", scen.ENestedRun: "wraps-a-sub-run-error", scen.ETypedNil: "typed-nil-pointer", scen.ENilSliceErr: "nil-slice-error", scen.EIOEOF: "io.EOF", scen.ENotTemporary: "not-temporary", scen.ESameValue: "same-value", scen.EChained: "chained"}
 
 // tableScenario builds the scenario of one point of the exhaustive space:
 // nn nodes, 2 actions, target of every (node, action) ∈ {unconnected, nil, each node}, per-node scripts.
@@ -81,6 +81,8 @@ func pow(b, e int) int {
 
 func runC03(c *Cfg) {
 	r := c.Rep
+	runSpecial(c, "C03", "zero-value-nodes")
+	runSpecial(c, "C03", "default-post")
 	// 1. exhaustive small space
 	type space struct{ nn, tables, scripts int }
 	spaces := []space{{1, pow(3, 2), 6}, {2, pow(4, 4), 36}, {3, pow(5, 6), 216}}
@@ -175,6 +177,7 @@ func runC03(c *Cfg) {
 	mcs := append(midConnectCases(), actionPayloadCases()...)
 	mcs = append(mcs, wideRouterCases()...)
 	mcs = append(mcs, selfLoopThenEndCases()...)
+	mcs = append(mcs, startlessBranchCases()...)
 	parallel(c, len(mcs), func(i int) {
 		judgeFor(c, "C03", "connect-while-running", mcs[i])
 		if len(mcs[i].MidConnect) > 0 {
